@@ -451,7 +451,7 @@ fn member_fuel(v: &Value, ty: &Ty, env: &Env, fuel: u32) -> bool {
 }
 
 /// Explain why `v` is not a member (best effort, for replay files).
-pub fn explain_nonmember(v: &Value, ty: &Ty, env: &Env) -> String {
+pub fn explain_nonmember(v: &Value, ty: &Ty, _env: &Env) -> String {
     format!("value {} is not a member of {}", v, show(ty))
 }
 
